@@ -2,3 +2,4 @@
 import Yabgp.Props.C03
 import Yabgp.Props.C03b
 import Yabgp.Props.C03c
+import Yabgp.Props.C03d
